@@ -552,6 +552,8 @@ def _recanon(e):
     e = tuple(_recanon(x) if isinstance(x, tuple) else x for x in e)
     if e[0] == "filter" and e[1] in ("first", "last", "length") and not e[3] and not e[4] and e[2][0] == "filter" and e[2][1] == "list" and not e[2][3] and not e[2][4]:
         e = ("filter", e[1], e[2][2], (), ())
+    if e[0] == "filter" and e[1] == "attr" and len(e[3]) == 1 and not e[4] and e[3][0][0] == "const" and isinstance(e[3][0][1], str) and e[3][0][1].isidentifier():
+        e = ("attr", e[2], e[3][0][1])          # `x | attr("name")` with a literal name is `x.name`
     if e[0] == "filter" and e[1] in ("first", "last", "list", "length", "join", "sort") and e[2][0] == "attr" and e[2][2] == "element_count":
         e = ("filter", e[1], ("call", ("attr", e[2], "keys"), (), ())) + tuple(e[3:])
     if e[0] == "item" and e[2][0] == "const" and isinstance(e[2][1], str) and e[2][1] in ("alias", "name", "element_count"):
@@ -804,7 +806,9 @@ def _r4_defs(ctx, pkg):
     found = {}
     for it in items:
         if it[0] == "text":
-            prev = it[1]
+            prev += it[1]            # (a name printed by a macro from a literal argument arrives as its own piece of text)
+        elif it[0] in ("set", "other"):
+            continue                 # parameter bindings / markers of a macro expansion print nothing
         elif it[0] == "for":
             m = re.search(r"(\w+)\s*=\s*\[\s*$", prev)
             if m:
